@@ -64,11 +64,11 @@ def supply(text, form, tmpdir):
     if form == 'str':
         return text, None
     if form == 'lines':
-        return text.splitlines(keepends=True), None
+        return workloads.lines_of(text), None
     if form == 'bare-lines':
         return text.split('\n'), None            # lines without terminators (what str.splitlines / split give a caller)
     if form == 'line-iterator':
-        return (l for l in text.splitlines()), None
+        return (l for l in workloads.lines_of(text, keepends=False)), None
     if form == 'stringio':
         return io.StringIO(text, newline=None), None
     path = os.path.join(tmpdir, 'in.md')
